@@ -92,4 +92,16 @@ TEXT = {
         "note": "num-bigint is the trusted oracle; 64-bit x86 target only; inputs are sampled except where stated exhaustive.",
         "technique": REF + " (num-bigint oracle, panic capture)",
     },
+    "C16": {
+        "text": "All 134 shipped configurations (40 prime fields, 31 tower levels incl. 4 toy towers, 52 curves, 11 GLV, 11 pairing and 7 hash-to-curve parameter sets of test-curves and the 27 curves/* crates) are read through the public traits and ~2500 table-driven obligations - one per declared or derived constant or defining equation - are recomputed independently with num-bigint, a schoolbook tower model and textbook affine curve arithmetic over that model (Miller-Rabin primality, R/R2/INV, exact orders of roots of unity incl. get_root_of_unity for every size, every Frobenius table entry, r*G = 0, Hasse, COFACTOR*r on random curve points, cofactor inverses, GLV lattice, family polynomials, loop counts, final-exponent identities, twists, isogeny homomorphism). The set of obligations is enumerated completely in both tiers; the thorough tier only adds random points and pairs.",
+        "design_ref": "DESIGN.md §4 C16",
+        "note": "primality is probabilistic; large group orders are not point-counted; conventions taken from the code's comments are listed in the evidence notes.",
+        "technique": REF + " (independent recomputation of every constant / defining equation at run time)",
+    },
+    "C20": {
+        "text": "A committed grid of 5179 literals (MontFp!, BigInt!, const Fp::new) over 20 moduli with N = 1..13 limbs - every accepted radix prefix, minus sign, leading zeros, values 0, p-1, >= p up to 2^(64N)-1 and limb-boundary values - is compiled into the monitor and each constant is compared at run time with the Python-computed value, an independent parse of its text and the run-time constructors; octal/binary literals are additionally expanded in a run-time context so mis-read radices surface as violations. Derive-macro products (limb count, modulus limbs, generator, 2-adic and large-subgroup roots, R, R2, INV) of 164 grid configurations, 7 small-subgroup fields and 40 shipped fields are recomputed with num-bigint. The grid is a fixed, completely enumerated sub-space (exhaustive over the grid, not over all strings); quick = thorough.",
+        "design_ref": "DESIGN.md §4 C20",
+        "note": "compile-time evaluation observed at run time; literals that do not fit are documented compile errors and are not generated.",
+        "technique": REF + " (compile-time constants compared at run time with Python-generated expectations)",
+    },
 }
